@@ -16,26 +16,29 @@ namespace AwsVerif.Props.C17
 open AwsVerif.MemTrace AwsVerif.Proofs.C17
 
 /-- **Sequential histories.**  After every history of client calls (hence after each call of it:
-the statement is for all `ops`), at a tracing level the reported byte total is the sum of the
+the statement is for all `ops`), for every configuration of the wrapped allocator (`hr` / `hc`: it
+implements `mem_realloc` / `mem_calloc`, or `aws_mem_realloc` / `aws_mem_calloc` emulate them with
+acquire + copy + release), at a tracing level the reported byte total is the sum of the
 requested sizes of the live allocations and the reported count is their number; at level `none`
 both are 0.  Calls that violate an API precondition / the allocator contract are not made
 (`Ret.rejected`), so no hypothesis on `ops` is needed. -/
-theorem c17_seq (lvl : Level) (frames : Nat) (ops : List Op) :
-    ((Seq.new lvl frames).run ops).tr.bytes =
-        (if lvl = .none then 0 else liveBytes ((Seq.new lvl frames).run ops).par % W) ∧
-    ((Seq.new lvl frames).run ops).tr.count =
-        (if lvl = .none then 0 else ((Seq.new lvl frames).run ops).par.blocks.length) :=
-  seq_main lvl frames ops
+theorem c17_seq (lvl : Level) (frames : Nat) (hr hc : Bool) (ops : List Op) :
+    let s := (Seq.new lvl frames { blocks := [], hasRealloc := hr, hasCalloc := hc }).run ops
+    s.tr.bytes = (if lvl = .none then 0 else liveBytes s.par % W) ∧
+    s.tr.count = (if lvl = .none then 0 else s.par.blocks.length) :=
+  seq_main lvl frames _ rfl ops
 
-/-- both are 0 once everything is released (any level) -/
-theorem c17_seq_all_released (lvl : Level) (frames : Nat) (ops : List Op)
-    (h : ((Seq.new lvl frames).run ops).par.blocks = []) :
-    ((Seq.new lvl frames).run ops).tr.bytes = 0 ∧ ((Seq.new lvl frames).run ops).tr.count = 0 := by
-  have := c17_seq lvl frames ops
+/-- both are 0 once everything is released (any level, any configuration) -/
+theorem c17_seq_all_released (lvl : Level) (frames : Nat) (hr hc : Bool) (ops : List Op) :
+    let s := (Seq.new lvl frames { blocks := [], hasRealloc := hr, hasCalloc := hc }).run ops
+    s.par.blocks = [] → s.tr.bytes = 0 ∧ s.tr.count = 0 := by
+  intro s h
+  have := c17_seq lvl frames hr hc ops
+  simp only at this
   rw [this.1, this.2]
   by_cases hn : lvl = .none
   · simp [hn]
-  · simp [hn, h, liveBytes, W]
+  · simp [hn, s, h, liveBytes, W]
 
 /-- **Every interleaving.**  For any number of threads and any schedule of the tracer's atomic /
 lock / table actions (`Act.start` lets a new thread enter a call at any time, `Act.step i o`
@@ -43,13 +46,13 @@ lets the `i`-th call in flight perform its next action), at every reachable stat
 `allocated + Σ(sizes subtracted for entries still in the table) ≡ Σ sizes(table) + Σ(sizes added
 for blocks not yet in the table)  (mod 2^64)`, and at every quiescent state the sequential
 statement holds for the client's live set. -/
-theorem c17_conc (lvl : Level) (hl : lvl ≠ .none) (frames : Nat) (acts : List Act) :
-    let s := run (Sys.init lvl frames) acts
+theorem c17_conc (lvl : Level) (hl : lvl ≠ .none) (frames : Nat) (hr hc : Bool) (acts : List Act) :
+    let s := run (Sys.init lvl frames hr hc) acts
     (s.sh.tr.allocated + (s.pool.map subbedOf).sum) % W = (s.sh.tr.allocs.bytes + (s.pool.map addedOf).sum) % W ∧
     (s.quiescent →
       s.sh.tr.bytes = (s.sh.owned.map (·.2)).sum % W ∧ s.sh.tr.count = s.sh.owned.length) := by
   intro s
-  have hi : SysInv lvl s := run_inv_sys hl (init_inv lvl frames) acts
+  have hi : SysInv lvl s := run_inv_sys hl (init_inv lvl frames hr hc) acts
   refine ⟨?_, fun hq => ?_⟩
   · have := hi.inv.acct
     rwa [sumBy_attr_added, sumBy_attr_subbed] at this
@@ -59,26 +62,27 @@ theorem c17_conc (lvl : Level) (hl : lvl ≠ .none) (frames : Nat) (acts : List 
     exact this
 
 /-- at level `none` the tracer reports 0 / 0 in every state of every schedule -/
-theorem c17_conc_level_none (frames : Nat) (acts : List Act) :
-    (run (Sys.init .none frames) acts).sh.tr.bytes = 0 ∧ (run (Sys.init .none frames) acts).sh.tr.count = 0 := by
-  have : (run (Sys.init .none frames) acts).sh.tr.level = .none := by
+theorem c17_conc_level_none (frames : Nat) (hr hc : Bool) (acts : List Act) :
+    (run (Sys.init .none frames hr hc) acts).sh.tr.bytes = 0 ∧ (run (Sys.init .none frames hr hc) acts).sh.tr.count = 0 := by
+  have : (run (Sys.init .none frames hr hc) acts).sh.tr.level = .none := by
     rw [run_level_sys]; simp [Sys.init, Tracer.new]
   simp [Tracer.bytes, Tracer.count, this]
 
 /-- mutual structure of the table under every schedule: the table's entries are exactly the client's
 blocks plus the entries accounted for by calls in flight, no address twice (used by `c17_conc`;
 stated separately because it is what makes `hash_table_put` never overwrite a live entry) -/
-theorem c17_conc_table (lvl : Level) (hl : lvl ≠ .none) (frames : Nat) (acts : List Act) :
-    let s := run (Sys.init lvl frames) acts
+theorem c17_conc_table (lvl : Level) (hl : lvl ≠ .none) (frames : Nat) (hr hc : Bool) (acts : List Act) :
+    let s := run (Sys.init lvl frames hr hc) acts
     (s.sh.tr.allocs.map (·.1)).Nodup ∧
     (∀ e ∈ s.sh.owned, ∃ i, s.sh.tr.allocs.lookup e.1 = some i ∧ i.size = e.2) := by
   intro s
-  have hi : SysInv lvl s := run_inv_sys hl (init_inv lvl frames) acts
+  have hi : SysInv lvl s := run_inv_sys hl (init_inv lvl frames hr hc) acts
   exact ⟨hi.inv.keysNodup, hi.inv.ownedFound⟩
 
 /-- **Transparency.**  Under the same history the wrapped allocator ends in the same state —
 same live blocks at the same addresses with the same bytes — whether the calls go through the
-tracer (any level, any tracer state) or directly to it, and every call returns the same pointer:
+tracer (any level, any tracer state, any configuration of the wrapped allocator: `s.par` carries
+`hasRealloc` / `hasCalloc`) or directly to it, and every call returns the same pointer:
 the tracer never writes client memory and never changes what the wrapped allocator is asked. -/
 theorem c17_transparent (s : Seq) (ops : List Op) :
     (s.run ops).par = Parent.runDirect s.par ops ∧
@@ -115,10 +119,11 @@ theorem c17_steps_refine_seq (s : Seq) (owned : List (Addr × Nat)) :
       Completes (runAlone s owned (.realloc 0 old new sid) dest)
         (s.step (.realloc 0 old new dest sid)).1.tr (s.step (.realloc 0 old new dest sid)).1.par) ∧
     (∀ p g old new sid, p ≠ 0 → new ≠ 0 → owned.lookup p = some g → s.par.live p = true →
+      s.par.reallocOK p old new p = true →
       Completes (runAlone s owned (.realloc p old new sid) p)
         (s.step (.realloc p old new p sid)).1.tr (s.step (.realloc p old new p sid)).1.par) ∧
     (∀ p g old new sid dest, p ≠ 0 → new ≠ 0 → owned.lookup p = some g → s.par.live p = true → dest ≠ p →
-      freshAddr s.par dest = true →
+      freshAddr s.par dest = true → s.par.reallocOK p old new dest = true →
       Completes (runAlone s owned (.realloc p old new sid) dest)
         (s.step (.realloc p old new dest sid)).1.tr (s.step (.realloc p old new dest sid)).1.par) :=
   ⟨fun dest sz sid h1 h2 => acquire_refines s owned dest sz sid h1 h2,
@@ -126,8 +131,8 @@ theorem c17_steps_refine_seq (s : Seq) (owned : List (Addr × Nat)) :
    fun p g o h1 h2 h3 => release_refines s owned p g h1 h2 h3 o,
    fun p g old sid o dest h1 h2 h3 => realloc_zero_refines s owned p g old sid h1 h2 h3 o dest,
    fun old new sid dest h1 h2 => realloc_null_refines s owned old new sid dest h1 h2,
-   fun p g old new sid h1 h2 h3 h4 => realloc_keep_refines s owned p g old new sid h1 h2 h3 h4,
-   fun p g old new sid dest h1 h2 h3 h4 h5 h6 => realloc_move_refines s owned p g old new sid dest h1 h2 h3 h4 h5 h6⟩
+   fun p g old new sid h1 h2 h3 h4 h5 => realloc_keep_refines s owned p g old new sid h1 h2 h3 h4 h5,
+   fun p g old new sid dest h1 h2 h3 h4 h5 h6 h7 => realloc_move_refines s owned p g old new sid dest h1 h2 h3 h4 h5 h6 h7⟩
 
 /-! Non-vacuity: concrete histories / schedules in which the quantities above are non-trivial. -/
 
@@ -136,6 +141,13 @@ example :
     let s := (Seq.new .bytes 8).run [.acquire 1 48 1, .calloc 2 3 16 2, .realloc 1 48 600 1 3, .realloc 2 48 10 3 3,
                                       .acquire 2 38 1, .release 3]
     s.tr.bytes = 638 ∧ s.tr.count = 2 ∧ s.par.blocks.length = 2 := by decide
+
+/-- a wrapped allocator without `mem_realloc`: the shrinking realloc keeps the block where it is (the
+emulation does nothing) and the tracer must still re-record the new size: 100 → 40 bytes -/
+example :
+    let s := (Seq.new .bytes 8 { blocks := [], hasRealloc := false, hasCalloc := false }).run
+      [.acquire 1 100 1, .realloc 1 100 40 1 3, .calloc 2 2 3 2, .realloc 2 6 50 3 3]
+    s.tr.bytes = 90 ∧ s.tr.count = 2 ∧ s.par.blocks.map (·.1) = [3, 1] := by decide
 
 /-- two threads: the second acquire completes between the first one's `fetch_add` and its `put`;
 the counter is ahead of the table by the first block's size -/
